@@ -80,3 +80,17 @@ package actionlint
 //@     body_calls (*RuleBase).Errorf iff !ignored.has(k) && (!rows.has(k) || (forall j :: 0 <= j && j < len(rows[k]) ==> !ysub(rows[k][j], a.Value)))
 //@   loop "range row" #2:
 //@     invariant forall j :: 0 <= j && j <= range_i ==> !ysub(row[j], a.Value)
+
+// a matrix whose include section contains any expression (the whole section or one element) defines
+// rows that are not known statically: nothing about `exclude` is reported then
+//@ spec hasexprs(cs: *MatrixCombinations): bool
+//@ lemma hasexprs_def: forall cs: *MatrixCombinations :: hasexprs(cs) <==> (cs.Expression != nil || (exists j :: 0 <= j && j < len(cs.Combinations) && cs.Combinations[j].Expression != nil))
+//@ func (*MatrixCombinations).ContainsExpression
+//@   props C19
+//@   uses hasexprs_def
+//@   ensures result == hasexprs(cs)
+//@   loop "range cs.Combinations":
+//@     invariant forall jj :: 0 <= jj && jj <= range_i ==> cs.Combinations[jj].Expression == nil
+//@ func (*RuleMatrix).checkExclude
+//@   props C19
+//@   ensures old(m.Include != nil && hasexprs(m.Include)) ==> len(rule.errs) == old(len(rule.errs))
